@@ -1,5 +1,250 @@
-(* C12 — placeholder while the harness is brought up (replaced below) *)
-From Coq Require Import List.
-From TD Require Import Model.C12_Chunk.
-Theorem C12_placeholder : True. Proof. exact I. Qed.
-Print Assumptions C12_placeholder.
+(* C12 — chunked / multi-process / multi-thread execution = sequential execution.  Property theorems only.
+   Model: Model/C12_Chunk.v (utils._split_tensordict, chunk, split, base._map) and Model/C12_Sched.v
+   (_multithread_apply_flat/_rebuild, _apply_nest, memmap / consolidate writer tasks).
+   TRUSTED (named in the model): multiprocessing.Pool.imap yields results in submission order (trusted_imap);
+   a future's result is what its task returned. *)
+From Coq Require Import ZArith List Bool Permutation Lia.
+Import ListNotations.
+From TD Require Import Model.C12_Chunk Model.C12_Sched Proofs.C12_ChunkP Proofs.C12_SchedP Proofs.C12_AssignP.
+Open Scope nat_scope.
+
+(* ================================================================= the partition *)
+(* for ALL n > 0, chunksize, num_chunks, num_workers, generator on/off, shuffle on/off: whenever _split_tensordict returns,
+   the slices it hands out are consecutive, non-empty, in order and cover [0, n) *)
+Theorem C12_chunks_partition : forall n cs nc nw gen sh l,
+  n > 0 -> split_pieces n cs nc nw gen sh = Ok l -> tiles 0 n (map (bounds n) l).
+Proof. exact chunks_partition. Qed.
+Print Assumptions C12_chunks_partition.
+
+(* what [tiles] gives: every row lies in a piece, and pieces are pairwise disjoint and increasing *)
+Theorem C12_tiles_cover_disjoint : forall lo hi bs, tiles lo hi bs ->
+  (forall i, lo <= i < hi -> exists a b, In (a, b) bs /\ a <= i < b) /\
+  (forall i j a b c d, nth_error bs i = Some (a, b) -> nth_error bs j = Some (c, d) -> i < j -> lo <= a /\ b <= c /\ d <= hi).
+Proof. intros lo hi bs H. split; [exact (tiles_cover lo hi bs H)|exact (tiles_disjoint lo hi bs H)]. Qed.
+Print Assumptions C12_tiles_cover_disjoint.
+
+(* hence: concatenating the slices of any list of n rows, in order, gives the list back *)
+Theorem C12_pieces_concat : forall (A : Type) n cs nc nw gen sh l (rows : list A),
+  n > 0 -> List.length rows = n -> split_pieces n cs nc nw gen sh = Ok l ->
+  concat (map (take rows) (map (bounds n) l)) = rows.
+Proof. intro A. exact (@pieces_concat A). Qed.
+Print Assumptions C12_pieces_concat.
+
+(* it does return for every argument combination the documentation allows (one of chunksize / num_chunks, positive counts) *)
+Theorem C12_split_returns : forall n cs nc nw gen sh,
+  n > 0 -> (sh = true -> gen = true) -> split_sizes_ok n cs nc nw ->
+  exists l, split_pieces n cs nc nw gen sh = Ok l.
+Proof. exact split_ok. Qed.
+Print Assumptions C12_split_returns.
+
+(* python's -(n // -k) is the ceiling of n / k *)
+Theorem C12_pyceil_is_ceiling : forall n k, k > 0 ->
+  pyceil n k = (n + k - 1) / k /\ n <= pyceil n k * k /\ pyceil n k * k < n + k.
+Proof. intros n k H. split; [now apply pyceil_closed|now apply pyceil_bounds]. Qed.
+Print Assumptions C12_pyceil_is_ceiling.
+
+(* the pieces are exactly: size s = chunksize (or ceil(n / min(n, num_chunks))), the last one ragged *)
+Theorem C12_pieces_closed_form : forall n cs nc nw gen sh l s,
+  n > 0 -> split_pieces n cs nc nw gen sh = Ok l -> eff_size n cs nc nw = Some s ->
+  map (bounds n) l = spec_bounds n s.
+Proof. exact pieces_closed_form. Qed.
+Print Assumptions C12_pieces_closed_form.
+
+Theorem C12_num_chunks_bound : forall n k nw gen sh l,
+  n > 0 -> split_pieces n None (Some k) nw gen sh = Ok l -> List.length l <= k.
+Proof. exact num_chunks_bound. Qed.
+Print Assumptions C12_num_chunks_bound.
+
+(* index_with_generator on/off: same slices *)
+Theorem C12_gen_eq_nogen : forall n cs nc nw,
+  n > 0 -> split_sizes_ok n cs nc nw ->
+  rmap (map (bounds n)) (split_pieces n cs nc nw true false) = rmap (map (bounds n)) (split_pieces n cs nc nw false false).
+Proof. exact gen_eq_nogen. Qed.
+Print Assumptions C12_gen_eq_nogen.
+
+(* shuffle=True: the chunks are consecutive pieces of the random permutation: every row exactly once *)
+Theorem C12_shuffle_partition : forall rp cs nc nw l,
+  rp <> [] -> split_pieces (List.length rp) cs nc nw true true = Ok l -> concat (shuffle_pieces rp l) = rp.
+Proof. exact shuffle_partition. Qed.
+Print Assumptions C12_shuffle_partition.
+
+(* ================================================================= reassembly *)
+(* EXACT behaviour of _map's loop with out= (every input): the non-None results are written back to back from `start`,
+   i.e. chunk k lands at offset = total length of the non-None results before it *)
+Theorem C12_reassembly_offsets_exact : forall (B : Type) unbound (items : list (option (list B))) out start,
+  start + List.length (concat (somes items)) <= List.length out ->
+  (unbound = true -> Forall len1 items) ->
+  reassemble_out unbound out start items
+  = Ok (firstn start out ++ concat (somes items) ++ skipn (start + List.length (concat (somes items))) out).
+Proof. intro B. exact (@reassemble_compact B). Qed.
+Print Assumptions C12_reassembly_offsets_exact.
+
+(* the property as stated: with out=, chunk k is written at its own slice *)
+Definition C12_reassembly_offsets_full_statement : Prop :=
+  forall (B : Type) n bs (items : list (option (list B))) out,
+    tiles 0 n bs -> List.length out = n -> List.length items = List.length bs ->
+    Forall2 (fun ab it => match it with Some rows => List.length rows = snd ab - fst ab | None => True end) bs items ->
+    reassemble_out false out 0 items = Ok (seq_out out bs items).
+
+(* proved when the None results (if any) come last ... *)
+Theorem C12_reassembly_offsets_partial : forall (B : Type) unbound n m bs1 bs2 (items1 : list (option (list B))) out,
+  tiles 0 m bs1 -> tiles m n bs2 -> List.length out = n -> Forall2 fits bs1 items1 ->
+  (unbound = true -> Forall len1 items1) ->
+  reassemble_out unbound out 0 (items1 ++ repeat None (List.length bs2))
+  = Ok (seq_out out (bs1 ++ bs2) (items1 ++ repeat None (List.length bs2))).
+Proof. intro B. exact (@reassembly_offsets_partial B). Qed.
+Print Assumptions C12_reassembly_offsets_partial.
+
+(* ... and false as soon as a None precedes a result (finding S1: `start` is not advanced for None items) *)
+Theorem C12_reassembly_offsets_refuted :
+  exists (out : list Z) bs items,
+    tiles 0 (List.length out) bs /\ List.length items = List.length bs /\
+    reassemble_out false out 0 items <> Ok (seq_out out bs items).
+Proof. exact reassembly_offsets_refuted. Qed.
+Print Assumptions C12_reassembly_offsets_refuted.
+
+(* map with a row-wise function = the function applied to the whole, for every chunking and every out= kind
+   (imap in submission order is the trusted part) *)
+Theorem C12_map_eq_whole : forall (A B : Type) (g : A -> B) (rows : list A) out cs nc nw gen l,
+  List.length rows > 0 -> split_pieces (List.length rows) cs nc nw gen false = Ok l ->
+  map_model (fun r => Some (map g r)) rows ONone out cs nc nw gen = Ok (RetCat (map g rows)) /\
+  (List.length out = List.length rows ->
+     map_model (fun r => Some (map g r)) rows ORegular out cs nc nw gen = Ok (RetOut (map g rows)) /\
+     map_model (fun r => Some (map g r)) rows OShared out cs nc nw gen = Ok (RetNoneOut (map g rows))).
+Proof.
+  intros A B g rows out cs nc nw gen l Hn Hs. split; [eapply map_rowwise_cat; eassumption|].
+  intro Ho. split; [eapply map_rowwise_out; eassumption|eapply map_rowwise_shared; eassumption].
+Qed.
+Print Assumptions C12_map_eq_whole.
+
+(* shared / memmap out=: the workers write their own slices; any completion order gives the same buffer *)
+Theorem C12_shared_out_order_free : forall (B : Type) n bs (items : list (option (list B))) out ws,
+  tiles 0 n bs -> Forall2 fits bs items -> List.length out = n ->
+  Permutation (combine (map fst bs) (somes items)) ws ->
+  run_assign ws out = concat (somes items) /\ shared_out out bs items = Ok (concat (somes items)).
+Proof. intro B. exact (@shared_out_order_free B). Qed.
+Print Assumptions C12_shared_out_order_free.
+
+(* ================================================================= thread pools *)
+(* for EVERY option combination (also the defective ones) the result of the multithreaded apply does not depend on the
+   completion order of the tasks *)
+Theorem C12_mt_apply_order_free : forall fn o d con self others out pi1 pi2,
+  Permutation pi1 pi2 ->
+  mt_apply fn o d con self others out pi1 = mt_apply fn o d con self others out pi2.
+Proof. exact mt_apply_order_free. Qed.
+Print Assumptions C12_mt_apply_order_free.
+
+(* ... it equals the single-threaded _apply_nest for every completion order in which all tasks complete, when
+   out= is not given, filter_empty is a boolean, and default= is not given ... *)
+Theorem C12_mt_eq_st : forall fn o b con self others pi,
+  o_fe o = Some b ->
+  (forall id, id < ntasks con self -> In id pi) ->
+  mt_apply fn o NoDefault con self others None pi = st_apply fn o NoDefault con self others None.
+Proof. exact mt_eq_st_all_complete. Qed.
+Print Assumptions C12_mt_eq_st.
+
+(* ... or default= is given but no entry is missing from the other operands *)
+Theorem C12_mt_eq_st_default_covered : forall fn o b con self others pi,
+  o_fe o = Some b -> covers others self ->
+  (forall id, id < ntasks con self -> In id pi) ->
+  mt_apply fn o Default con self others None pi = st_apply fn o Default con self others None.
+Proof. exact mt_eq_st_default_covered. Qed.
+Print Assumptions C12_mt_eq_st_default_covered.
+
+(* the full statement is false of the faithful model: findings S16 (out=), S15 (default=), C12-b (filter_empty=None) *)
+Definition C12_mt_eq_st_full_statement : Prop :=
+  forall fn o d con self others out pi,
+    (forall id, id < ntasks con self -> In id pi) ->
+    mt_apply fn o d con self others out pi = st_apply fn o d con self others out.
+
+Theorem C12_mt_out_nested_refuted :
+  exists fn o self out pi,
+    (forall id, id < ntasks false self -> In id pi) /\
+    mt_apply fn o NoDefault false self [] (Some out) pi = OCyclic /\
+    exists r, st_apply fn o NoDefault false self [] (Some out) = ORet (Some r).
+Proof. exact mt_out_nested_refuted. Qed.
+Print Assumptions C12_mt_out_nested_refuted.
+
+Theorem C12_mt_default_nested_refuted :
+  exists fn o self other pi,
+    (forall id, id < ntasks false self -> In id pi) /\
+    mt_apply fn o Default false self [other] None pi = ORaise AKey /\
+    exists r, st_apply fn o Default false self [other] None = ORet (Some r).
+Proof. exact mt_default_nested_refuted. Qed.
+Print Assumptions C12_mt_default_nested_refuted.
+
+Theorem C12_mt_filter_empty_none_refuted :
+  exists fn o self pi,
+    (forall id, id < ntasks false self -> In id pi) /\
+    mt_apply fn o NoDefault false self [] None pi <> st_apply fn o NoDefault false self [] None.
+Proof. exact mt_filter_empty_none_refuted. Qed.
+Print Assumptions C12_mt_filter_empty_none_refuted.
+
+(* ================================================================= multithreaded writers *)
+(* memmap_ / memmap / memmap_like: every completion order of the writer tasks leaves the same value under every key *)
+Theorem C12_writers_order_free : forall ops1 ops2 d0,
+  Permutation ops1 ops2 -> NoDup (map fst ops1) ->
+  forall q, aget (run_writes ops1 d0) q = aget (run_writes ops2 d0) q.
+Proof. exact writers_order_free. Qed.
+Print Assumptions C12_writers_order_free.
+
+(* in place (memmap_) the key order is the single-threaded one as well ... *)
+Theorem C12_writers_inplace_key_order : forall ops d0,
+  (forall p, In p (map fst ops) -> In p (map fst d0)) -> map fst (run_writes ops d0) = map fst d0.
+Proof. exact writers_inplace_key_order. Qed.
+Print Assumptions C12_writers_inplace_key_order.
+
+(* ... out of place (memmap, memmap_like) the KEY ORDER of the result follows the completion order *)
+Theorem C12_writers_fresh_key_order_refuted :
+  exists ops1 ops2, Permutation ops1 ops2 /\ NoDup (map fst ops1) /\
+                    map fst (run_writes ops1 []) <> map fst (run_writes ops2 []).
+Proof. exact writers_fresh_key_order_refuted. Qed.
+Print Assumptions C12_writers_fresh_key_order_refuted.
+
+(* consolidate(num_threads): the assign tasks write disjoint ranges; every completion order fills the storage with the
+   concatenation of the (padded) entries *)
+Theorem C12_consolidate_order_free : forall (B : Type) (chunks : list (list B)) (storage : list B) ws,
+  List.length storage = List.length (concat chunks) ->
+  Permutation (layout_writes 0 chunks) ws ->
+  run_assign ws storage = concat chunks.
+Proof. intro B. exact (@consolidate_order_free B). Qed.
+Print Assumptions C12_consolidate_order_free.
+
+(* ================================================================= non-vacuity *)
+Example C12_ex_partition :
+  split_pieces 7 (Some 3) None 2 true false = Ok [PSl 0 3; PSl 3 6; PSl 6 9]
+  /\ map (bounds 7) [PSl 0 3; PSl 3 6; PSl 6 9] = [(0, 3); (3, 6); (6, 7)]
+  /\ split_pieces 7 None (Some 4) 2 false false = Ok [PSl 0 2; PSl 2 4; PSl 4 6; PSl 6 7]
+  /\ split_sizes_ok 7 None (Some 4) 2 /\ eff_size 7 None (Some 4) 2 = Some 2.
+Proof. repeat split; try reflexivity. cbn. auto. Qed.
+
+Example C12_ex_reassembly :
+  reassemble_out false [0; 0; 0; 0; 0]%Z 0 [Some [1; 2]%Z; Some [3; 4]%Z; None] = Ok [1; 2; 3; 4; 0]%Z
+  /\ tiles 0 4 [(0, 2); (2, 4)] /\ tiles 4 5 [(4, 5)]
+  /\ Forall2 fits [(0, 2); (2, 4)] [Some [1; 2]%Z; Some [3; 4]%Z].
+Proof.
+  split; [reflexivity|]. split; [cbn; auto with arith|]. split; [cbn; auto with arith|].
+  repeat constructor; eexists; split; reflexivity.
+Qed.
+
+From Coq Require Import String.
+Open Scope string_scope.
+Example C12_ex_threads :
+  let self := FCons "a" (Leaf 1) (FCons "n" (Node (FCons "c" (Leaf 2) (FCons "d" (Leaf 3) FNil))) (FCons "b" (Leaf 4) FNil)) in
+  let o := {| o_named := false; o_nested_keys := false; o_inplace := false; o_fe := Some false |} in
+  ntasks false self = 4
+  /\ (forall id, id < 4 -> In id [3; 1; 0; 2])
+  /\ mt_apply inc_fn o NoDefault false self [] None [3; 1; 0; 2] = st_apply inc_fn o NoDefault false self [] None
+  /\ st_apply inc_fn o NoDefault false self [] None
+     = ORet (Some (FCons "a" (Leaf 2) (FCons "n" (Node (FCons "c" (Leaf 3) (FCons "d" (Leaf 4) FNil))) (FCons "b" (Leaf 5) FNil)))).
+Proof.
+  cbn zeta. split; [reflexivity|]. split.
+  - intros id H. do 4 (destruct id as [|id]; [cbn; tauto|]). lia.
+  - split; vm_compute; reflexivity.
+Qed.
+
+Example C12_ex_consolidate :
+  layout_writes 0 [[1%Z; 2%Z]; [3%Z]; [4%Z; 5%Z; 6%Z]] = [(0, [1%Z; 2%Z]); (2, [3%Z]); (3, [4%Z; 5%Z; 6%Z])]
+  /\ run_assign [(3, [4%Z; 5%Z; 6%Z]); (0, [1%Z; 2%Z]); (2, [3%Z])] [0%Z; 0%Z; 0%Z; 0%Z; 0%Z; 0%Z]
+     = [1%Z; 2%Z; 3%Z; 4%Z; 5%Z; 6%Z].
+Proof. split; reflexivity. Qed.
